@@ -8,7 +8,8 @@ Open Scope string_scope.
 Record ctxcase := {
   x_listing : list bytes; x_makefiles : list bytes; x_scripts : list bytes;     (* inputs (scripts: encoding/json oracle) *)
   x_types : list bytes; x_types2 : list bytes; x_boosts : list (bytes * float); x_boosts2 : list (bytes * float);
-  x_targets : list bytes; x_obs_scripts : list bytes; x_err : bool; x_probe : list (bytes * float) }.
+  x_targets : list bytes; x_obs_scripts : list bytes; x_err : bool; x_probe : list (bytes * float);
+  x_replica : option (list bytes * list (bytes * float)) }.   (* types and boosts of a replica created in another order *)
 
 Definition fbits_eqb (a b : float) : bool := PrimFloat.eqb a b || (negb (PrimFloat.eqb a a) && negb (PrimFloat.eqb b b)).
 Definition kv_eqb (a b : bytes * float) : bool := bytes_eqb (fst a) (fst b) && fbits_eqb (snd a) (snd b).
@@ -31,6 +32,9 @@ Definition check_case (c : ctxcase) : report :=
                   Nat.eqb (List.length (x_probe c)) (List.length (boost_keys pt [] [])) &&
                   forallb (fun kv => match boost_lookup pt [] [] (fst kv) with Some v => fbits_eqb v (snd kv) | None => false end) (x_probe c))
          then Some "function_of_the_listing"
+    else if match x_replica c with
+            | Some (t3, b3) => negb (list_eqb bytes_eqb (x_types c) t3) || negb (list_eqb kv_eqb (x_boosts c) b3)
+            | None => false end then Some "function_of_the_listing/replica"
     else None in
   let mtypes := detect (x_listing c) in
   let mtargets := flat_map make_targets (x_makefiles c) in
@@ -49,6 +53,7 @@ Definition check_case (c : ctxcase) : report :=
      r_trivial := false;
      r_tags := ["ctx"] ++ (if recognised then ["recognised"] else ["generic"]) ++
                (match mtargets with [] => [] | _ => ["make_targets"] end) ++ (match x_scripts c with [] => [] | _ => ["scripts"] end) ++
-               (if Nat.ltb 1 (List.length (x_types c)) then ["several_types"] else []) |}.
+               (if Nat.ltb 1 (List.length (x_types c)) then ["several_types"] else []) ++
+               (match x_replica c with Some _ => ["replica"] | None => [] end) |}.
 
 Definition check_cases (l : list ctxcase) : list string := render (map check_case l).
